@@ -129,8 +129,23 @@ def r6_ready_macro(text):
         cnt += 1
 
 
+def _split_top_commas(mtext, text):
+    parts, last, j = [], 0, 0
+    while j < len(mtext):
+        c = mtext[j]
+        if c in "([{":
+            j = L.match_close(mtext, j)
+        elif c == ",":
+            parts.append(text[last:j]); last = j + 1
+        j += 1
+    parts.append(text[last:])
+    return parts
+
+
 def r4_opaque_format(text):
-    """R4: `format!(..)` and `err.to_string()` -> verif_opaque_string()   (error-message contents dropped)"""
+    """R4: error-message / SQL-text strings are opaque: `format!(FMT, a, b)` -> `verif_opaque_string_of((a, b))`
+    (the argument expressions are KEPT and evaluated, so a panic or overflow inside them is still an obligation);
+    `format!(FMT)` and `x.to_string()` for an identifier, path or string literal x -> `verif_opaque_string()`."""
     cnt = 0
     text, n0 = re.subn(r"\b(err|error|e)\.to_string\(\)", "verif_opaque_string()", text)
     cnt += n0
@@ -138,11 +153,37 @@ def r4_opaque_format(text):
         m = L.mask(text)
         k = re.search(r"(?<![A-Za-z0-9_])format!\s*\(", m)
         if not k:
-            return text, cnt
+            break
         po = m.index("(", k.start())
         pc = L.match_close(m, po)
-        text = text[:k.start()] + "verif_opaque_string()" + text[pc + 1:]
+        parts = _split_top_commas(m[po + 1:pc], text[po + 1:pc])
+        args = []
+        for a in parts[1:]:
+            a = a.strip()
+            if not a:
+                continue
+            a = re.sub(r"^[A-Za-z_][A-Za-z0-9_]*\s*=\s*(?!=)", "", a)   # named argument `name = expr`
+            args.append(a)
+        if args:
+            rep = "verif_opaque_string_of((%s,))" % ", ".join(args)
+        else:
+            rep = "verif_opaque_string()"
+        text = text[:k.start()] + rep + text[pc + 1:]
         cnt += 1
+    # "literal".to_string()  /  ident.to_string()
+    while True:
+        m = L.mask(text)
+        k = re.search(r'("\s*"|\b[a-z_][A-Za-z0-9_]*)\s*\.\s*to_string\s*\(\s*\)', m)
+        if not k:
+            break
+        st = k.start()
+        if m[st] == '"':
+            # string literal: find its opening quote (mask blanks the content)
+            j = st
+            # k matched `" "`-like masked literal start..end; use as is
+        text = text[:st] + "verif_opaque_string()" + text[k.end():]
+        cnt += 1
+    return text, cnt
 
 
 def r3_tuple_closure_params(text):
